@@ -116,7 +116,17 @@ def run(chk, scratch):
                 w.write_bam(p, file_idx=fi)
                 bams.append(p)
                 labels.append("lab%d" % fi)
-            extra += ["--read_group", "file_name"] + ((["--labels"] + labels) if hs % 2 == 0 else [])
+            yaml_in = None
+            if hs % 4 == 0:
+                # labelled files given through a YAML description, listed in an order that is NOT the lexicographic order of their paths
+                yaml_in = os.path.join(d, "exp.yaml")
+                order_ = list(range(nf))[::-1]
+                with open(yaml_in, "w") as f:
+                    f.write('[\n  data format: "bam",\n  {\n    name: "%s",\n    long read files: [%s],\n    labels: [%s]\n  }\n]\n' %
+                            (pipeline.PREFIX, ", ".join('"%s"' % bams[k_] for k_ in order_), ", ".join('"%s"' % labels[k_] for k_ in order_)))
+                extra += ["--read_group", "file_name"]
+            else:
+                extra += ["--read_group", "file_name"] + ((["--labels"] + labels) if hs % 2 == 0 else [])
             if hs % 2 == 1:
                 truth = {k_: (default_names[int(v_[3:])] if v_.startswith("lab") else v_) for k_, v_ in truth.items()}
         else:
@@ -169,7 +179,7 @@ def run(chk, scratch):
                 r["resumed"] = True
                 return job, d, w, truth, out, r
             return job, d, w, truth, out, r1
-        r = pipeline.run(d, out, threads=threads, bam=bams, extra=extra, hashseed=str(hs))
+        r = pipeline.run(d, out, threads=threads, bam=bams, extra=extra, hashseed=str(hs), **({"bam_list": yaml_in} if mode == "file_name" and yaml_in else {}))
         return job, d, w, truth, out, r
     cells = 0
     for job, d, w, truth, out, r in runner.parallel(one, jobs, workers=8):
